@@ -6,7 +6,6 @@ import (
 	"fmt"
 	"strings"
 
-	"github.com/ipld/go-car/v2/blockstore"
 	"github.com/ipld/go-car/v2/index"
 
 	"verif/drv"
@@ -17,72 +16,224 @@ import (
 
 type C07Case struct {
 	Seq      []string `json:"seq"`
-	Cont     string   `json:"cont"`     // v1 v1null v2 v2pad v2null v2idx-mh v2idx-sorted
+	Cont     string   `json:"cont"`     // see c07Layout
 	Supplied string   `json:"supplied"` // "", mh, sorted
 	Whole    bool     `json:"whole,omitempty"`
 	StoreID  bool     `json:"storeid,omitempty"`
 	ZeroEOF  bool     `json:"zeroeof,omitempty"`
-	Front    string   `json:"front"` // ro-new ro-new-at ro-open st-open st-open-at
+	Front    string   `json:"front"`           // drv.RAKinds + drv.RAKindsX
+	Roots    string   `json:"roots,omitempty"` // "" = ab; nil empty a a0 ab r4
+	Hdr      string   `json:"hdr,omitempty"`   // "" = canonical header; "vr" = version key before the roots key
+	Codec    string   `json:"codec,omitempty"` // UseIndexCodec given to the reader (generated index): "" | "sorted"
+	Order    string   `json:"order,omitempty"` // "" = queries first; "l" = roots and listing first
+}
+
+// c07Lay describes a container kind.
+type c07Lay struct {
+	v2       bool
+	dataPad  uint64
+	idxPad   uint64
+	embedded uint64 // codec of the embedded index, 0 = none
+	noID     bool   // embedded index built without identity records (and not flagged fully indexed)
+	zeros    int    // null padding after the sections (inside the payload window)
+	tail     bool   // sections after the null padding
+}
+
+func (l c07Lay) null() bool { return l.zeros > 0 }
+
+// c07TailSeq are the sections laid out after the null padding of the *-tail containers: one block
+// that never occurs in front of the padding (c) and one that may (a).
+var c07TailSeq = []string{"c", "a"}
+
+func c07Layout(cont string) c07Lay {
+	switch cont {
+	case "v1":
+		return c07Lay{}
+	case "v1null":
+		return c07Lay{zeros: 9}
+	case "v1null-tail":
+		return c07Lay{zeros: 9, tail: true}
+	case "v2":
+		return c07Lay{v2: true}
+	case "v2pad":
+		return c07Lay{v2: true, dataPad: 5}
+	case "v2null":
+		return c07Lay{v2: true, dataPad: 3, zeros: 4}
+	case "v2null-tail":
+		return c07Lay{v2: true, dataPad: 3, zeros: 4, tail: true}
+	}
+	if rest, ok := strings.CutPrefix(cont, "v2idx-"); ok {
+		l := c07Lay{v2: true, dataPad: 5, idxPad: 3}
+		kind, variant, _ := strings.Cut(rest, "-")
+		switch kind {
+		case "mh":
+			l.embedded = refcar.CodecMhIndexSorted
+		case "sorted":
+			l.embedded = refcar.CodecIndexSorted
+		default:
+			panic("unknown container " + cont)
+		}
+		switch variant {
+		case "":
+		case "noid":
+			l.noID = true
+		case "null":
+			l.zeros = 4
+		default:
+			panic("unknown container " + cont)
+		}
+		return l
+	}
+	panic("unknown container " + cont)
+}
+
+// c07Roots resolves the root set of a case ("" = the historical constant ab).
+func c07Roots(name string) (raws [][]byte, isNil bool) {
+	switch name {
+	case "":
+		name = "ab"
+	case "r4":
+		// four roots: the header body is >= 128 bytes, its length prefix a 2-byte varint
+		for _, n := range []string{"a", "b", "c", "s"} {
+			raws = append(raws, kit.B(n).Raw)
+		}
+		return raws, false
+	}
+	_, raws, isNil = kit.Roots(name)
+	return raws, isNil
+}
+
+// c07Header is the length-prefixed CARv1 header in the requested shape.
+func c07Header(roots [][]byte, nilRoots bool, shape string) []byte {
+	body := refcar.EncodeHeaderBody(roots, nilRoots, 1)
+	switch shape {
+	case "":
+	case "vr":
+		// a2 | 65 "roots" <roots> | 67 "version" 01  ->  a2 | 67 "version" 01 | 65 "roots" <roots>
+		const verLen = 1 + 7 + 1
+		nb := []byte{body[0]}
+		nb = append(nb, body[len(body)-verLen:]...)
+		nb = append(nb, body[1:len(body)-verLen]...)
+		body = nb
+	default:
+		panic("unknown header shape " + shape)
+	}
+	return append(refcar.PutUvarint(uint64(len(body))), body...)
+}
+
+// c07Build lays the archive out. pl is the reference front-to-back scan of the payload window
+// (up to the null padding when there is one).
+func c07Build(lay c07Lay, hdrShape string, roots [][]byte, nilRoots bool, blks []refcar.Block, storeID bool) (file []byte, pl *refcar.Payload) {
+	window := c07Header(roots, nilRoots, hdrShape)
+	for _, b := range blks {
+		window = append(window, refcar.EncodeSection(b)...)
+	}
+	window = append(window, make([]byte, lay.zeros)...)
+	if lay.tail {
+		for _, b := range kit.Bs(c07TailSeq) {
+			window = append(window, refcar.EncodeSection(b.Ref())...)
+		}
+	}
+	pl, err := refcar.DecodePayload(window, lay.null(), true)
+	if err != nil {
+		panic(err)
+	}
+	if len(pl.Sections) != len(blks) || pl.NullPadded != lay.null() {
+		panic("c07: reference scan does not see the sections laid out")
+	}
+	if !lay.v2 {
+		return window, pl
+	}
+	var idx []byte
+	fully := false
+	if lay.embedded != 0 {
+		withID := storeID && !lay.noID
+		idx = refcar.EncodeIndex(lay.embedded, refcar.RecordsOf(pl, withID))
+		fully = withID
+	}
+	return refcar.EncodeV2(window, lay.dataPad, lay.idxPad, idx, fully), pl
 }
 
 func runC07(c any, x *kit.Ctx) {
 	cs := c.(C07Case)
-	_, rootRaws, _ := kit.Roots("ab")
+	rootRaws, nilRoots := c07Roots(cs.Roots)
 	blks := kit.Bs(cs.Seq)
 	var rb []refcar.Block
 	for _, b := range blks {
 		rb = append(rb, b.Ref())
 	}
-	cont := cs.Cont
-	codec := uint64(refcar.CodecMhIndexSorted)
-	if cont == "v2idx-sorted" {
-		codec = refcar.CodecIndexSorted
-	}
-	if strings.HasPrefix(cont, "v2idx") {
-		cont = "v2idx"
-	}
-	file, payload := buildContainer(cont, rootRaws, rb, cs.StoreID, codec)
-	pl, err := refcar.DecodePayload(payload, false, true)
-	if err != nil {
-		panic(err)
-	}
-	o := drv.Opts{Whole: cs.Whole, StoreID: cs.StoreID, ZeroEOF: cs.ZeroEOF}
+	lay := c07Layout(cs.Cont)
+	file, pl := c07Build(lay, cs.Hdr, rootRaws, nilRoots, rb, cs.StoreID)
+	o := drv.Opts{Whole: cs.Whole, StoreID: cs.StoreID, ZeroEOF: cs.ZeroEOF, Codec: cs.Codec}
 	tag := cs.Front + ":" + cs.Cont
+	// Signature prefix. Two input classes have their own (see KNOWN_FINDINGS / report):
+	//  - a backing ReaderAt that returns io.EOF together with the final byte, when that byte is read
+	//    through ReadByte (the archive ends with the 4-byte section of the empty identity CID)
+	//  - a backing whose Read position is not 0 when it is handed over (open fails)
+	base := "c07:"
+	if strings.HasSuffix(cs.Front, "-eofat") && bytes.HasSuffix(file, refcar.EncodeSection(kit.B("i0").Ref())) {
+		base = "c07:eofat-final-byte:"
+	}
+	again := base + "again:"
 	x.Eval(1)
 
-	var ra drv.RA
+	var idx index.Index
 	if cs.Supplied != "" {
 		sc := uint64(refcar.CodecMhIndexSorted)
 		if cs.Supplied == "sorted" {
 			sc = refcar.CodecIndexSorted
 		}
-		idx, err := index.ReadFrom(bytes.NewReader(refcar.EncodeIndex(sc, refcar.RecordsOf(pl, cs.StoreID))))
+		var err error
+		idx, err = index.ReadFrom(bytes.NewReader(refcar.EncodeIndex(sc, refcar.RecordsOf(pl, cs.StoreID))))
 		if err != nil {
-			x.Fail("c07:supplied-index", "cannot load reference index: %v", err)
+			x.Fail(base+"supplied-index", "cannot load reference index: %v", err)
 			return
 		}
-		bs, err := blockstore.NewReadOnly(bytes.NewReader(file), idx, o.List()...)
-		if err != nil {
-			x.Fail("c07:open:"+tag, "NewReadOnly with a supplied index fails on a valid archive: %v", err)
-			return
-		}
-		ra = drv.WrapBS(bs)
-	} else {
-		ra, err = drv.OpenRA(cs.Front, x.Dir, file, o)
-		nullPadded := cs.Cont == "v1null" || cs.Cont == "v2null"
-		if nullPadded && !cs.ZeroEOF {
+	}
+	ra, err := drv.OpenRAX(cs.Front, x.Dir, file, o, idx)
+	// lenientNull: null padding without ZeroLengthSectionAsEOF, but nothing scans the payload at
+	// open (supplied or embedded index). The listing is the only walk over the padding.
+	lenientNull := false
+	if lay.null() && !cs.ZeroEOF {
+		if cs.Supplied == "" && lay.embedded == 0 {
 			if err == nil {
-				x.Fail("c07:null-padding-accepted:"+tag, "archive with null padding opened without ZeroLengthSectionAsEOF")
+				ra.Close()
+				x.Fail(base+"null-padding-accepted:"+tag, "archive with null padding opened without ZeroLengthSectionAsEOF")
 			}
 			x.Outcome("refused-null-padding")
 			return
 		}
 		if err != nil {
-			x.Fail("c07:open:"+tag, "open fails on a valid archive: %v", err)
+			x.Outcome("refused-null-padding")
 			return
 		}
+		lenientNull = true
+	}
+	if err != nil && cs.Hdr != "" {
+		// a header that is not canonical dag-cbor may be refused
+		x.Outcome("refused-noncanonical-header")
+		return
+	}
+	if err != nil {
+		sig := base + "open:" + tag
+		if strings.HasSuffix(cs.Front, "-pos") {
+			sig = base + "open-position:" + tag
+		}
+		if cs.Supplied != "" {
+			x.Fail(sig, "NewReadOnly with a supplied index fails on a valid archive: %v", err)
+		} else {
+			x.Fail(sig, "open fails on a valid archive: %v", err)
+		}
+		return
 	}
 	defer ra.Close()
+
+	// the index in use
+	if got := drv.IndexOf(ra); got == nil {
+		x.Fail(base+"index-nil:"+tag, "Index() is nil on an open store")
+	} else if idx != nil && got != idx {
+		x.Fail(base+"supplied-index-replaced:"+tag, "NewReadOnly was given an index but Index() returns another one (%T)", got)
+	}
 
 	m := &model.Map{Cfg: model.Cfg{Whole: cs.Whole, StoreID: cs.StoreID, AllowDup: true}}
 	for _, b := range blks {
@@ -93,85 +244,176 @@ func runC07(c any, x *kit.Ctx) {
 		queries = append(queries, kit.B(n))
 	}
 	queries = append(queries, kit.Absent)
-	for _, q := range queries {
-		x.Transition(3)
-		ident := model.IsIdentity(q.Raw)
-		cands := m.Find(q.Raw)
-		has, herr := ra.Has(q.Cid)
-		data, gerr := ra.Get(q.Cid)
-		size, serr := ra.Size(q.Cid)
-		if ident && !cs.StoreID {
-			// IdStore behaviour: always present, content is the digest
-			qi, _ := refcar.ParseCID(q.Raw)
-			if herr != nil || !has {
-				x.Fail("c07:identity-has:"+tag, "Has(%s)=%v,%v for an identity CID without StoreIdentityCIDs", q.Name, has, herr)
-			}
-			if gerr != nil || !bytes.Equal(data, qi.Digest) {
-				x.Fail("c07:identity-get:"+tag, "Get(%s)=%x,%v want the digest", q.Name, data, gerr)
-			}
-			if serr != nil || size != len(qi.Digest) {
-				x.Fail("c07:identity-size:"+tag, "GetSize(%s)=%d,%v want %d", q.Name, size, serr, len(qi.Digest))
-			}
-			continue
+	extra := map[string]bool{}
+	for _, n := range cs.Seq {
+		if _, ok := kit.Alpha[n]; !ok && !extra[n] {
+			extra[n] = true
+			queries = append(queries, kit.B(n))
 		}
-		if len(cands) == 0 {
-			if herr != nil || has {
-				x.Fail("c07:has-absent:"+tag, "Has(%s)=%v,%v but no section carries that key", q.Name, has, herr)
+	}
+
+	var wantKeys [][]byte
+	for _, s := range pl.Sections {
+		if cs.Whole {
+			wantKeys = append(wantKeys, s.Cid)
+		} else {
+			wantKeys = append(wantKeys, rawV1Key(s.Cid))
+		}
+	}
+
+	// pfx is base for the first round of a kind of call and base+"again:" for later rounds, so
+	// that an answer that only goes wrong after other calls has its own signature.
+	doQueries := func(pfx string) {
+		for _, q := range queries {
+			x.Transition(3)
+			ident := model.IsIdentity(q.Raw)
+			cands := m.Find(q.Raw)
+			has, herr := ra.Has(q.Cid)
+			data, gerr := ra.Get(q.Cid)
+			size, serr := ra.Size(q.Cid)
+			if ident && !cs.StoreID {
+				// IdStore behaviour: always present, content is the digest
+				qi, _ := refcar.ParseCID(q.Raw)
+				if herr != nil || !has {
+					x.Fail(pfx+"identity-has:"+tag, "Has(%s)=%v,%v for an identity CID without StoreIdentityCIDs", q.Name, has, herr)
+				}
+				if gerr != nil || !bytes.Equal(data, qi.Digest) {
+					x.Fail(pfx+"identity-get:"+tag, "Get(%s)=%x,%v want the digest", q.Name, data, gerr)
+				}
+				if serr != nil || size != len(qi.Digest) {
+					x.Fail(pfx+"identity-size:"+tag, "GetSize(%s)=%d,%v want %d", q.Name, size, serr, len(qi.Digest))
+				}
+				continue
 			}
-			if gerr == nil {
-				x.Fail("c07:get-absent:"+tag, "Get(%s) returned %x but no section carries that key", q.Name, clip(data))
-			} else if !isNotFound(gerr) {
-				x.Fail("c07:get-absent-error:"+tag, "Get(%s) of an absent key returned %v, not a not-found error", q.Name, gerr)
+			if len(cands) == 0 {
+				if herr != nil || has {
+					x.Fail(pfx+"has-absent:"+tag, "Has(%s)=%v,%v but no section carries that key", q.Name, has, herr)
+				}
+				if gerr == nil {
+					x.Fail(pfx+"get-absent:"+tag, "Get(%s) returned %x but no section carries that key", q.Name, clip(data))
+				} else if !isNotFound(gerr) {
+					x.Fail(pfx+"get-absent-error:"+tag, "Get(%s) of an absent key returned %v, not a not-found error", q.Name, gerr)
+				}
+				if !(ident && drv.IsBlockstoreKind(cs.Front)) { // GetSize of an identity CID never consults the archive (documented)
+					if serr == nil {
+						x.Fail(pfx+"size-absent:"+tag, "GetSize(%s)=%d but no section carries that key", q.Name, size)
+					} else if !isNotFound(serr) {
+						x.Fail(pfx+"size-absent-error:"+tag, "GetSize(%s) of an absent key returned %v, not a not-found error", q.Name, serr)
+					}
+				}
+				continue
 			}
-			if !(ident && strings.HasPrefix(cs.Front, "ro")) { // GetSize of an identity CID never consults the archive (documented)
-				if serr == nil {
-					x.Fail("c07:size-absent:"+tag, "GetSize(%s)=%d but no section carries that key", q.Name, size)
+			if herr != nil || !has {
+				x.Fail(pfx+"has-present:"+tag, "Has(%s)=%v,%v but a section carries that key", q.Name, has, herr)
+			}
+			okData, okSize := false, false
+			for _, cnd := range cands {
+				if bytes.Equal(cnd.Data, data) {
+					okData = true
+				}
+				if len(cnd.Data) == size {
+					okSize = true
 				}
 			}
-			continue
-		}
-		if herr != nil || !has {
-			x.Fail("c07:has-present:"+tag, "Has(%s)=%v,%v but a section carries that key", q.Name, has, herr)
-		}
-		okData, okSize := false, false
-		for _, cnd := range cands {
-			if bytes.Equal(cnd.Data, data) {
-				okData = true
+			if gerr != nil || !okData {
+				x.Fail(pfx+"get-present:"+tag, "Get(%s)=%x,%v is not the data of a section carrying that key", q.Name, clip(data), gerr)
 			}
-			if len(cnd.Data) == size {
-				okSize = true
+			if serr != nil || !okSize {
+				x.Fail(pfx+"size-present:"+tag, "GetSize(%s)=%d,%v is not the size of a section carrying that key", q.Name, size, serr)
 			}
 		}
-		if gerr != nil || !okData {
-			x.Fail("c07:get-present:"+tag, "Get(%s)=%x,%v is not the data of a section carrying that key", q.Name, clip(data), gerr)
-		}
-		if serr != nil || !okSize {
-			x.Fail("c07:size-present:"+tag, "GetSize(%s)=%d,%v is not the size of a section carrying that key", q.Name, size, serr)
+	}
+	doRoots := func(pfx string) {
+		x.Transition(1)
+		rs, err := ra.Roots()
+		if err != nil || !sameRoots(rs, rootRaws) {
+			x.Fail(pfx+"roots:"+tag, "Roots()=%x,%v want %x", rs, err, rootRaws)
 		}
 	}
-	rs, err := ra.Roots()
-	if err != nil || !sameRoots(rs, rootRaws) {
-		x.Fail("c07:roots:"+tag, "Roots()=%x,%v want %x", rs, err, rootRaws)
-	}
-	keys, err := ra.Keys()
-	if err != drv.ErrNoListing {
-		var want [][]byte
-		for _, s := range pl.Sections {
-			if cs.Whole {
-				want = append(want, s.Cid)
-			} else {
-				want = append(want, rawV1Key(s.Cid))
+	doListing := func(pfx string) {
+		keys, err := ra.Keys()
+		if err == drv.ErrNoListing {
+			return
+		}
+		x.Transition(1)
+		if lenientNull {
+			// the walk meets a zero-length section that the configuration does not allow: the keys
+			// in front of it are the scan's, and the error has to reach the async error handler
+			if !sameRoots(keys, wantKeys) {
+				x.Fail(pfx+"null-listing-keys:"+tag, "AllKeysChan over null padding (no ZeroLengthSectionAsEOF)=%x want the sections in front of the padding %x", keys, wantKeys)
 			}
+			if err == nil {
+				x.Fail(pfx+"null-listing-silent:"+tag, "AllKeysChan stopped at a zero-length section without ZeroLengthSectionAsEOF and reported no error to the async error handler")
+			}
+			return
 		}
-		if err != nil || !sameRoots(keys, want) {
-			x.Fail("c07:listing:"+tag, "AllKeysChan=%x,%v want scan order %x", keys, err, want)
+		if err != nil || !sameRoots(keys, wantKeys) {
+			x.Fail(pfx+"listing:"+tag, "AllKeysChan=%x,%v want scan order %x", keys, err, wantKeys)
 		}
 	}
-	x.State(fmt.Sprintf("%x|%v|%v|%s", file, cs.Whole, cs.StoreID, cs.Supplied))
-	x.Outcome(fmt.Sprintf("sections=%d", len(pl.Sections)))
+	// a listing that is cancelled after `take` keys: what was delivered is a prefix of the scan
+	// and at least `take` keys long (or complete)
+	doCancelled := func() {
+		take := 1
+		if len(wantKeys) > 10 {
+			take = 2 // the producer is blocked on the full channel buffer when the context is cancelled
+		}
+		keys, _, ok, err := drv.KeysCancel(ra, take)
+		if !ok {
+			return
+		}
+		x.Transition(1)
+		if err != nil {
+			x.Fail(base+"listing-cancel-error:"+tag, "AllKeysChan failed: %v", err)
+			return
+		}
+		atLeast := take
+		if len(wantKeys) < atLeast {
+			atLeast = len(wantKeys)
+		}
+		if len(keys) < atLeast || len(keys) > len(wantKeys) || !sameRoots(keys, wantKeys[:len(keys)]) {
+			x.Fail(base+"listing-cancel:"+tag, "AllKeysChan cancelled after %d keys delivered %x: not a prefix (of >= %d keys) of the scan order %x", take, keys, atLeast, wantKeys)
+		}
+	}
+
+	switch cs.Order {
+	case "":
+		doQueries(base)
+		doRoots(base)
+		doListing(base)
+		doRoots(again)
+		doListing(again)
+		doQueries(again)
+		doCancelled()
+		doListing(again)
+	case "l":
+		doRoots(base)
+		doListing(base)
+		doQueries(base)
+		doCancelled()
+		doListing(again)
+		doRoots(again)
+		doQueries(again)
+	default:
+		panic("unknown order " + cs.Order)
+	}
+
+	x.State(fmt.Sprintf("%x|%v|%v|%s|%s", file, cs.Whole, cs.StoreID, cs.Supplied, cs.Codec))
+	if lenientNull {
+		x.Outcome(fmt.Sprintf("null-unscanned-sections=%d", c07Clamp(len(pl.Sections))))
+	} else {
+		x.Outcome(fmt.Sprintf("sections=%d", c07Clamp(len(pl.Sections))))
+	}
 	if len(pl.Sections) >= 2 {
 		x.Nontrivial(fmt.Sprintf("%+v", cs))
 	}
+}
+
+func c07Clamp(n int) int {
+	if n > 4 {
+		return 5
+	}
+	return n
 }
 
 func isNotFound(err error) bool {
@@ -182,32 +424,62 @@ func isNotFound(err error) bool {
 	return false
 }
 
-func genC07(tier string, emit func(any)) {
-	names := []string{"a", "b", "a'", "a0", "ia", "i", "s", "t", "e"}
-	maxLen := 2
-	if tier == "thorough" {
-		names = append(names, "k", "i0")
-		maxLen = 3
-	}
-	var seqs [][]string
-	kit.Seqs(names, maxLen, func(s []string) { seqs = append(seqs, s) })
-	seqs = append(seqs, []string{"a", "a", "a"}, []string{"a", "ia", "a'", "a0"}, []string{"L128", "a", "L16384", "a"}, []string{"ip1", "ip2"}, []string{"ip1", "k", "a", "ip2"})
-	conts := []string{"v1", "v2", "v2pad", "v2idx-mh", "v2idx-sorted", "v1null", "v2null"}
-	for _, sq := range seqs {
-		for _, cont := range conts {
-			null := cont == "v1null" || cont == "v2null"
-			for _, whole := range []bool{false, true} {
-				for _, sid := range []bool{false, true} {
-					for _, z := range []bool{false, true} {
-						if z && !null && cont != "v1" {
-							continue
+// ---------------------------------------------------------------- enumeration
+
+type c07Shape struct{ Roots, Hdr string }
+
+// c07Block is one fully enumerated product: seqs x conts x shapes x UseWholeCIDs x StoreIdentityCIDs x
+// ZeroLengthSectionAsEOF (where meaningful) x orders x (codecs x fronts  +  supplied fronts x {mh, sorted}).
+type c07Block struct {
+	seqs      [][]string
+	conts     []string
+	shapes    []c07Shape
+	orders    []string
+	codecs    []string // UseIndexCodec values for the index-less containers ("" = default)
+	fronts    []string
+	supFronts []string // front-ends that are (also) given a supplied index
+	supCodecs []string
+}
+
+func (b c07Block) emit(emit func(any)) {
+	for _, sq := range b.seqs {
+		for _, cont := range b.conts {
+			lay := c07Layout(cont)
+			for _, sh := range b.shapes {
+				for _, whole := range []bool{false, true} {
+					for _, sid := range []bool{false, true} {
+						if lay.noID && !sid {
+							continue // the variant exists to tell the supplied index from the embedded one under StoreIdentityCIDs
 						}
-						for _, front := range drv.RAKinds {
-							emit(C07Case{Seq: sq, Cont: cont, Whole: whole, StoreID: sid, ZeroEOF: z, Front: front})
-						}
-						if !null || z {
-							for _, sup := range []string{"mh", "sorted"} {
-								emit(C07Case{Seq: sq, Cont: cont, Supplied: sup, Whole: whole, StoreID: sid, ZeroEOF: z, Front: "ro-new"})
+						for _, z := range []bool{false, true} {
+							if z && !lay.null() && cont != "v1" {
+								continue
+							}
+							for _, ord := range b.orders {
+								cs := C07Case{Seq: sq, Cont: cont, Whole: whole, StoreID: sid, ZeroEOF: z, Roots: sh.Roots, Hdr: sh.Hdr, Order: ord}
+								for _, codec := range b.codecs {
+									if lay.noID {
+										break // reader with StoreIdentityCIDs over an embedded index without identity records: left open by the documentation
+									}
+									if codec != "" && lay.embedded != 0 {
+										continue // nothing is generated
+									}
+									for _, front := range b.fronts {
+										if codec != "" && !drv.IsBlockstoreKind(front) {
+											continue // the storage always loads an insertion index
+										}
+										c := cs
+										c.Front, c.Codec = front, codec
+										emit(c)
+									}
+								}
+								for _, front := range b.supFronts {
+									for _, sup := range b.supCodecs {
+										c := cs
+										c.Front, c.Supplied = front, sup
+										emit(c)
+									}
+								}
 							}
 						}
 					}
@@ -217,20 +489,114 @@ func genC07(tier string, emit func(any)) {
 	}
 }
 
+var (
+	c07BaseConts  = []string{"v1", "v2", "v2pad", "v2idx-mh", "v2idx-sorted", "v1null", "v2null"}
+	c07NewConts   = []string{"v2idx-mh-null", "v2idx-sorted-null", "v1null-tail", "v2null-tail", "v2idx-mh-noid", "v2idx-sorted-noid"}
+	c07GenConts   = []string{"v1", "v2", "v2pad", "v1null", "v2null", "v1null-tail", "v2null-tail"} // containers whose index is generated at open
+	c07Default    = []c07Shape{{}}
+	c07Shapes     = []c07Shape{{Roots: "nil"}, {Roots: "empty"}, {Roots: "a"}, {Roots: "a0"}, {Roots: "r4"}, {Hdr: "vr"}, {Roots: "r4", Hdr: "vr"}}
+	c07SupFronts  = []string{"ro-new", "ro-new-at", "ro-new-file", "ro-new-eofat"}
+	c07BothCodecs = []string{"mh", "sorted"}
+	c07BothOrders = []string{"", "l"}
+)
+
+func c07AllFronts() []string {
+	return append(append([]string{}, drv.RAKinds...), drv.RAKindsX...)
+}
+
+// c07BigSeq: 44 sections (more than the listing channel buffers, 42 records in one index bucket)
+// with the hash-equal family a, a', a0 and a duplicate in the middle.
+func c07BigSeq() []string {
+	many := kit.ManyNames(40)
+	out := append([]string{}, many[:20]...)
+	out = append(out, "a", "a'", "a0", "a")
+	return append(out, many[20:]...)
+}
+
+func c07SpecialSeqs() [][]string {
+	return [][]string{{"a", "a", "a"}, {"a", "ia", "a'", "a0"}, {"L128", "a", "L16384", "a"}, {"ip1", "ip2"}, {"ip1", "k", "a", "ip2"},
+		{"a", "i0"}, {"k", "a"}, c07BigSeq()}
+}
+
+func genC07(tier string, emit func(any)) {
+	names := []string{"a", "b", "a'", "a0", "ia", "i", "s", "t", "e"}
+	maxLen := 2
+	if tier == "thorough" {
+		names = append(names, "k", "i0")
+		maxLen = 3
+	}
+	var tiny, short, long [][]string // length <= 1, length <= 2, length 3
+	kit.Seqs(names, maxLen, func(s []string) {
+		if len(s) <= 1 {
+			tiny = append(tiny, s)
+		}
+		if len(s) <= 2 {
+			short = append(short, s)
+		} else {
+			long = append(long, s)
+		}
+	})
+	special := c07SpecialSeqs()
+	tinySpecial := append(append([][]string{}, tiny...), special...)
+	shortSpecial := append(append([][]string{}, short...), special...)
+	fronts := c07AllFronts()
+	def := []string{""}
+	allConts := append(append([]string{}, c07BaseConts...), c07NewConts...)
+
+	if tier == "thorough" {
+		// 1. historical containers, default header; length-3 sequences in the queries-first order only
+		c07Block{seqs: shortSpecial, conts: c07BaseConts, shapes: c07Default, orders: c07BothOrders, codecs: def, fronts: fronts, supFronts: c07SupFronts, supCodecs: c07BothCodecs}.emit(emit)
+		c07Block{seqs: long, conts: c07BaseConts, shapes: c07Default, orders: def, codecs: def, fronts: fronts, supFronts: c07SupFronts, supCodecs: c07BothCodecs}.emit(emit)
+		// 2. embedded index + null padding, sections after the padding, embedded index without identity records
+		c07Block{seqs: shortSpecial, conts: c07NewConts, shapes: c07Default, orders: c07BothOrders, codecs: def, fronts: fronts, supFronts: c07SupFronts, supCodecs: c07BothCodecs}.emit(emit)
+		// 3. generated index of the plain sorted codec
+		c07Block{seqs: shortSpecial, conts: c07GenConts, shapes: c07Default, orders: c07BothOrders, codecs: []string{"sorted"}, fronts: fronts}.emit(emit)
+		// 4. header shapes x special sequences
+		c07Block{seqs: special, conts: allConts, shapes: c07Shapes, orders: c07BothOrders, codecs: def, fronts: fronts, supFronts: c07SupFronts, supCodecs: c07BothCodecs}.emit(emit)
+		return
+	}
+	// quick: the same dimensions over reduced matrices
+	c07Block{seqs: shortSpecial, conts: c07BaseConts, shapes: c07Default, orders: def, codecs: def, fronts: fronts, supFronts: c07SupFronts, supCodecs: c07BothCodecs}.emit(emit)
+	c07Block{seqs: tinySpecial, conts: c07BaseConts, shapes: c07Default, orders: []string{"l"}, codecs: def, fronts: fronts, supFronts: c07SupFronts, supCodecs: c07BothCodecs}.emit(emit)
+	c07Block{seqs: tinySpecial, conts: c07NewConts, shapes: c07Default, orders: c07BothOrders, codecs: def, fronts: fronts, supFronts: c07SupFronts, supCodecs: c07BothCodecs}.emit(emit)
+	c07Block{seqs: tinySpecial, conts: c07GenConts, shapes: c07Default, orders: c07BothOrders, codecs: []string{"sorted"}, fronts: fronts}.emit(emit)
+	c07Block{seqs: special, conts: []string{"v1", "v2pad", "v2idx-mh", "v1null", "v2idx-sorted-null"}, shapes: c07Shapes, orders: def, codecs: def, fronts: fronts, supFronts: []string{"ro-new"}, supCodecs: []string{"mh"}}.emit(emit)
+}
+
 func init() {
 	kit.Register(&kit.Prop{
 		ID:     "C07",
 		Gen:    genC07,
 		Run:    runC07,
 		Decode: kit.DecodeAs[C07Case],
-		Rule: "every archive up to the bound laid out by the reference encoder (CARv1, CARv2 without index/padded/with embedded index of either codec, null padding) x supplied index {none, either codec} x UseWholeCIDs x StoreIdentityCIDs x ZeroLengthSectionAsEOF x " +
-			"front-end {NewReadOnly over bytes and ReaderAt-only, OpenReadOnly (mmap), OpenReadable over bytes and ReaderAt-only}; every alphabet CID and an absent one are queried (Has, Get, GetSize/GetStream), listing and roots compared with the reference scan; non-trivial = >=2 sections",
+		Rule: "archives laid out by the reference encoder, every case opened on the real implementation and compared with the reference front-to-back scan. " +
+			"Dimensions: block sequence (all sequences up to the bound + 8 special ones: duplicates, the hash-equal family a/a'/a0/ia, sections crossing the 1/2/3-byte length varint, late-differing identity digests, a trailing 4-byte identity section, blake2b, and a 44-section archive = more than the listing channel buffers with 42 records in one index bucket); " +
+			"container {CARv1, CARv2 plain/padded/with embedded index of either codec, null padding after the sections (v1, v2, v2 with embedded index), sections after the null padding, embedded index without identity records next to a supplied one with them}; " +
+			"header shape {roots nil(null), empty, a, a0 (CIDv0), ab, 4 roots (body >= 128 bytes, 2-byte length varint)} x {canonical, version key before roots key (may be refused)}; " +
+			"options UseWholeCIDs x StoreIdentityCIDs x ZeroLengthSectionAsEOF (with null padding and on CARv1) x UseIndexCodec(IndexSorted) for generated indexes; " +
+			"index source {embedded, generated, supplied mh/sorted: Index() must be the supplied object}; " +
+			"front-end {NewReadOnly, OpenReadable} x backing {bytes.Reader, ReaderAt-only, *os.File, ReaderAt returning io.EOF with the final bytes, bytes.Reader with a non-zero Read position} + OpenReadOnly (mmap); supplied indexes over the first four NewReadOnly backings; " +
+			"call order {queries, roots, listing, roots, listing, queries, cancelled listing, listing} and {roots, listing, queries, cancelled listing, listing, roots, queries} (repeated calls have their own c07:again: signatures). " +
+			"Queries: every alphabet CID, an absent one and every block of the sequence (Has, Get, GetSize resp. Get+GetStream). " +
+			"Null padding without ZeroLengthSectionAsEOF: the open must fail when it scans; when nothing scans at open (supplied/embedded index) the listing must be the sections in front of the padding and report an error to the async handler. " +
+			"A cancelled listing must deliver a prefix of the scan order. " +
+			"thorough: full product for sequences of length <= 2 and the special ones; length-3 sequences with the 7 historical containers in the queries-first order; new containers and IndexSorted generation over length <= 2 + special; header shapes x special sequences x all containers. " +
+			"quick: length <= 2 + special x historical containers x all front-ends/supplied indexes in the queries-first order; listing-first order, new containers and IndexSorted generation over length <= 1 + special; header shapes x special sequences x 5 containers x all front-ends (+ one supplied index). non-trivial = >=2 sections",
 		Bound: func(tier string) map[string]any {
+			b := map[string]any{"special_seqs": 8, "big_seq_sections": 44, "containers": 13, "header_shapes": 8, "front_ends": 11, "supplied_index_front_ends": 4, "call_orders": 2}
 			if tier == "thorough" {
-				return map[string]any{"seq_len": 3, "alphabet": 11}
+				b["seq_len"], b["alphabet"] = 3, 11
+			} else {
+				b["seq_len"], b["alphabet"] = 2, 9
 			}
-			return map[string]any{"seq_len": 2, "alphabet": 9}
+			return b
 		},
-		Assumptions: []string{"refcar layout is correct", "embedded/supplied indexes contain identity entries exactly when the reader's StoreIdentityCIDs is on (the documentation leaves the mismatching combination open)", "GetSize of an identity CID on the blockstore never consults the archive (documented), so it is not compared for absent identity keys"},
+		Assumptions: []string{"refcar layout is correct",
+			"embedded/supplied indexes contain identity entries exactly when the reader's StoreIdentityCIDs is on (the documentation leaves the mismatching combination open); the only mismatch enumerated is an embedded index without identity records that must be ignored in favour of a supplied index with them",
+			"GetSize of an identity CID on the blockstore never consults the archive (documented), so it is not compared for absent identity keys",
+			"all hash-equal blocks of a valid archive carry equal bytes, so which of several sections carrying a key was served is not observable (and not constrained by the statement)",
+			"a header with the version key first is not canonical dag-cbor: a refusal at open is accepted, an accepted one must behave like the scan",
+			"after a zero-length section under ZeroLengthSectionAsEOF the scan has ended: later sections are not part of the archive",
+			"the number of keys a cancelled listing delivers is scheduling dependent; only the prefix property is asserted"},
 	})
 }
